@@ -201,19 +201,37 @@ package x509
 
 // FilterByDate: "divides chains into a set of disjoint chains, containing current chains valid
 // now, expired chains that were valid at some point, and the set of chains that were never
-// valid". Proved: memory safety, termination, the three results are fresh slices, no more
-// chains come out than went in, and the panic "valid && !wasValid should not be possible" is
+// valid" (C07 date partition; C12 "current, expired and never-valid chains that partition the
+// chains the graph walk finds").
+// Rule, from the doc comment and the property: for a non-empty chain, lowerBound is the latest
+// NotBefore and upperBound the earliest NotAfter over the chain's certificates; the chain is
+// current exactly when lowerBound < now < upperBound (both strict), expired exactly when it is
+// not current and lowerBound < upperBound, never valid otherwise; empty chains go nowhere.
+// What is pinned (no quantified postcondition over the output lists - that form was tried
+// twice and does not discharge, see /verif/notes/certpool.md and /verif/notes/vresult.md):
+//  * loop 2 invariants: lowerBound is the NotBefore of one of chain[0..it] and not earlier than
+//    any of them (isLatestNB); dually upperBound (isEarliestNA);
+//  * `at call Before#1 / After / Before#2`: the three comparisons are made between exactly the
+//    latest NotBefore of the whole chain, the earliest NotAfter of the whole chain and `now`;
+//  * `after call Before#2`: valid <==> lowerBound < now < upperBound, wasValid (the call's
+//    result) <==> lowerBound < upperBound, in the assumed strict order tlt of instants;
+// NOT pinned (three formulations written, none discharged, see /verif/notes/vresult.md): WHICH
+// list grows. valid / wasValid are pinned at the comparisons, the append that follows is not, so
+// a swap of the expired and never branches is not expected to raise an alarm here.
+// Also proved: memory safety, termination, the three results are fresh slices, no more chains
+// come out than went in, and the panic "valid && !wasValid should not be possible" is
 // unreachable (no maypanic): lowerBound < now < upperBound implies lowerBound < upperBound by
 // transitivity of the instant order, PROVIDED the three comparisons are wall-clock comparisons -
 // hence chainDatesOK: the validity dates carry no monotonic clock reading (they come from
 // parsing or time.Date; only time.Now returns such readings; Before/After compare monotonic
 // readings when both operands have one, and that order need not agree with the wall clock).
-// NOT proved (attempted, see the notes): the date semantics of the three classes and "every
-// non-empty input chain lands in exactly one output".
 // Quantifiers over positions are triggered by spec.pmark (pmark(i) holds for every i,
 // /verif/specs/certpool_time.smt2); the invariants name the positions the code touches.
 //@ pred certDatesOK(c) = c != nil && !hasMono(c.NotBefore) && !hasMono(c.NotAfter)
 //@ pred chainDatesOK(ch) = forall(m, 0, len(ch), certDatesOK(ch[m]), spec.pmark(m))
+// t is the latest NotBefore / earliest NotAfter among ch[0..n): attained, and none is later / earlier
+//@ pred isLatestNB(ch, n, t) = forall(m, 0, n, !spec.pmark(m) || !tlt(t, ch[m].NotBefore), spec.pmark(m)) && !forall(m, 0, n, !spec.pmark(m) || !same(t, ch[m].NotBefore), spec.pmark(m))
+//@ pred isEarliestNA(ch, n, t) = forall(m, 0, n, !spec.pmark(m) || !tlt(ch[m].NotAfter, t), spec.pmark(m)) && !forall(m, 0, n, !spec.pmark(m) || !same(t, ch[m].NotAfter), spec.pmark(m))
 //@ func FilterByDate
 //@   requires forall(i, 0, len(chains), chainDatesOK(chains[i]) && allocated(chains[i]), spec.pmark(i))
 //@   loop 1 invariant 0 <= it && it <= len(chains) && spec.pmark(it) && spec.pmark(0)
@@ -222,7 +240,13 @@ package x509
 //@   loop 1 decreases len(chains) - it
 //@   loop 2 invariant 0 <= it && it <= len(chain) - 1 && len(chain) >= 1 && spec.pmark(it + 1)
 //@   loop 2 invariant !hasMono(lowerBound) && !hasMono(upperBound)
+//@   loop 2 invariant isLatestNB(chain, it + 1, lowerBound)
+//@   loop 2 invariant isEarliestNA(chain, it + 1, upperBound)
 //@   loop 2 decreases len(chain) - 1 - it
+//@   at call Before#1 assert [lower] same(arg1, now) && isLatestNB(chain, len(chain), arg0)
+//@   at call After assert [upper] same(arg1, now) && isEarliestNA(chain, len(chain), arg0)
+//@   at call Before#2 assert [window] isLatestNB(chain, len(chain), arg0) && isEarliestNA(chain, len(chain), arg1)
+//@   after call Before#2 assert [decide] (valid <==> (tlt(lowerBound, now) && tlt(now, upperBound))) && (result <==> tlt(lowerBound, upperBound))
 //@   ensures [count] len(current) + len(expired) + len(never) <= len(chains)
 //@   ensures [fresh] fresh(current) && fresh(expired) && fresh(never)
 //@   terminates
